@@ -49,6 +49,9 @@ FromValue(src, tgt) ==
     [] src.k = "bool" -> Err
     [] OTHER -> [skip |-> TRUE]      \* number -> number is Gen_Convert's universe
 Values == {[k |-> "bool", txt |-> "true"], [k |-> "bool", txt |-> "false"], [k |-> "int", txt |-> "-3"], [k |-> "uint", txt |-> "7"],
+           \* the 64-bit boundaries: their TEXT is the exact decimal
+           [k |-> "uint", txt |-> "18446744073709551615"], [k |-> "uint", txt |-> "9223372036854775808"],
+           [k |-> "int", txt |-> "-9223372036854775808"], [k |-> "int", txt |-> "9223372036854775807"],
            [k |-> "float", txt |-> "1.5"], [k |-> "float", txt |-> "2"], [k |-> "float", txt |-> "1e+21"]}
 
 VARIABLES tgt, cs
